@@ -18,8 +18,8 @@ for f in sorted(glob.glob("/verif/seeded/*/meta.json")):
         else:
             cells.append(f"{p} {d.get('tier', 'quick')} seed {d.get('seed', 0)}: exit {d.get('exit')}")
     what = (m.get("what") or "").replace("|", "\\|").replace("\n", " ")
-    if len(what) > 230:
-        what = what[:227] + "..."
+    if len(what) > 170:
+        what = what[:167] + "..."
     rows.append(f"| {m['id']} | {m['property']} | {what} | {'<br>'.join(cells) or 'not run'} |")
 print("| change | breaks | what it does | checks that catch it |")
 print("|---|---|---|---|")
